@@ -30,9 +30,10 @@ RULE = ('cases: (aranges) Coq-encoded tables of 0..6 sets, address size 4/8 mixe
         'previous one ends, so 8-byte sets start at non-multiples of 16 after 4-byte sets), ragged (1..7 garbage bytes inside unit_length '
         'after the terminator: odd set starts), aligned (what producers emit); globally pairwise-disjoint ranges dealt to sets in '
         'random order with adjacent pairs, gaps, empty sets, garbage padding/trailing bytes, a range beginning at address 0 (first, '
-        'middle, last or only tuple of its set) and zero-length tuples with non-zero address in gaps (neither is a terminator); queried at first byte-1, first byte, middle, '
+        'middle, last or only tuple of its set) and zero-length tuples with non-zero address in gaps (neither is a terminator), ranges ending exactly at 2**32 / 2**64 or one '
+        'byte short; queried at first byte-1, first byte, middle, '
         'last byte, one past, for EVERY tuple, plus below/above/gap addresses; (names) 0..5 sets of pubnames or pubtypes with ASCII, '
-        'non-ASCII UTF-8, empty and duplicate names, present and absent queries through [], get, iter, items, len, get_cu_headers; '
+        'non-ASCII UTF-8 including names that are not in normal form C and NFC/NFD spellings of one name as two entries, empty and duplicate names, present and absent queries through [], get, iter, items, len, get_cu_headers; '
         '(units) 1..6 synthesized units (v2-v5, 32/64-bit, all six v5 unit types) queried at EVERY offset 0..size-1 in random order '
         'interleaved with get_CU_at at unit starts and get_DIE_from_lut_entry, plus all histories up to length 3 over six probes on a '
         'fixed 3-unit section, each followed by the full sweep; one (thorough: four) section of 1500..3000 equal minimal units queried cold '
@@ -74,12 +75,13 @@ def _gen_ranges(rng, n, bits, force0=False):
 LAYOUTS = ['packed', 'packed', 'ragged', 'aligned']
 
 
-def _gen_aranges_sets(rng, nsets, layout=None, allow_big=True, zero_at=None):
+def _gen_aranges_sets(rng, nsets, layout=None, allow_big=True, zero_at=None, top=None):
     """layout: 'packed'  no byte after the terminator: every set starts where the previous one ends
                'ragged'  1..7 garbage bytes after some terminators (still inside unit_length): odd set starts
                'aligned' trailing bytes chosen so that every set starts at a multiple of its tuple size (producers)
        zero_at: 'first' | 'middle' | 'last' | 'only': the table has a range beginning at address 0 and that tuple is put at
-               this position of a set with further tuples ('only': alone in its set)"""
+               this position of a set with further tuples ('only': alone in its set)
+       top: True / False / None (one table in four): ranges ending exactly at 2**32 / 2**64 (or one byte short)"""
     layout = layout or rng.choice(LAYOUTS)
     asz = [rng.choice([4, 8]) for _ in range(nsets)]
     bits = 32 if 4 in asz else rng.choice([32, 48, 64]) if allow_big else 32
@@ -100,6 +102,18 @@ def _gen_aranges_sets(rng, nsets, layout=None, allow_big=True, zero_at=None):
         tuples = [list(t) for t in tuples if not (t[0] == 0 and t[1] == 0)]
         sets.append([rng.choice([2, 2, 3, 4, 5, rng.randrange(65536)]), rng.randrange(2 ** 32) if rng.random() < 0.3 else rng.randrange(0x10000),
                      asz[i], _garbage(rng, 4), tuples, b''])
+    if top is None:
+        top = rng.random() < 0.25
+    if top:
+        # a range that ends exactly at the top of the address space of its set (2**32 in a 4-byte set, 2**64 in an 8-byte
+        # set) or one byte short of it: begin + length is NOT reduced modulo the address width.  Every other range of the
+        # table lies far below (< 2**(bits-8) + n * 0x5000), so the table stays conflict-free.
+        for width in sorted({st[2] for st in sets}):
+            if rng.random() < 0.8:
+                st = rng.choice([x for x in sets if x[2] == width])
+                ln = rng.choice([1, 2, 0x1000, 0x10000, rng.randint(1, 0x100000)])
+                end = 2 ** (8 * width) - rng.choice([0, 0, 0, 1])
+                st[4].insert(rng.randrange(len(st[4]) + 1), [end - ln, ln])
     if zero_at == 'only':
         empties = [st for st in sets if not st[4]]
         (rng.choice(empties) if empties else sets[0])[4][:] = [list(zero)]
@@ -166,10 +180,25 @@ def _gen_name(rng):
         return b''
     if k < 0.6:
         return bytes(rng.choice(b'abcdefghijklmnopqrstuvwxyz_:<>0123456789') for _ in range(rng.randint(1, 12)))
-    if k < 0.9:
+    if k < 0.75:
         alphabet = ['é', 'ü', 'λ', '中', '文', '\U0001f600', 'x', 'Y', '_', 'Ж']
         return ''.join(rng.choice(alphabet) for _ in range(rng.randint(1, 6))).encode('utf-8')
+    if k < 0.9:
+        # valid UTF-8 that is NOT in Unicode normal form C (nor, for some, in any normal form): a name is the byte string
+        # that was encoded, no normalisation: combining marks, singletons (ANGSTROM SIGN, OHM SIGN, compatibility
+        # ideographs), conjoining jamo, marks in non-canonical order
+        alphabet = ['e\u0301', 'u\u0308', 'A\u030a', '\u212b', '\u2126', '\uf900', '\ufa0c', '\u1100\u1161', 'q\u0323\u0307',
+                    'q\u0307\u0323', '\u0041\u0300', '\u00c5', 'x', '_', 'é']
+        return ''.join(rng.choice(alphabet) for _ in range(rng.randint(1, 4))).encode('utf-8')
     return bytes(rng.choice(b'ab') for _ in range(rng.randint(60, 140)))     # crosses CString chunking
+
+
+def _normal_forms(nm):
+    """the other spellings of a name: canonically (or compatibly) equivalent strings with DIFFERENT UTF-8 bytes;
+    they are different names"""
+    import unicodedata
+    t = nm.decode('utf-8')
+    return sorted({unicodedata.normalize(f, t).encode('utf-8') for f in ('NFC', 'NFD', 'NFKC', 'NFKD')} - {nm})
 
 
 def _gen_name_sets(rng, nsets, dup=True):
@@ -184,6 +213,11 @@ def _gen_name_sets(rng, nsets, dup=True):
                 nm = _gen_name(rng)
             pool.append(nm)
             entries.append([rng.choice([1, 11, rng.randrange(1, 2 ** 16), rng.randrange(1, 2 ** 32)]), nm])
+            other = _normal_forms(nm)
+            if other and rng.random() < 0.4:      # an NFC / NFD pair in one table (same or a later set): two entries
+                pool.append(rng.choice(other))
+                if rng.random() < 0.5:
+                    entries.append([rng.choice([2, 12, rng.randrange(1, 2 ** 16)]), pool[-1]])
         sets.append([rng.choice([2, 2, rng.randrange(65536)]), rng.choice([0, 0x20, rng.randrange(2 ** 32)]),
                      rng.randrange(2 ** 32), entries, _garbage(rng, rng.choice([0, 0, 1, 3, 4]))])
     return sets
@@ -252,6 +286,10 @@ def corpus(ctx):
             ('aranges_lookup', [True, [], [0]]),
             ('aranges_lookup', [False, [empty_set, [2, 0x40, 4, b'\x01\x02\x03\x04', [], b'']], [5]]),
             ('aranges_lookup', [True, [[2, 0x10, 8, b'\0\0\0\0', [[0x1000, 0x10]], b'']], [0xfff, 0x1000, 0x100f, 0x1010]]),
+            # ranges ending exactly at 2**32 (4-byte set) and 2**64 (8-byte set): the end is not reduced modulo the width
+            ('aranges_lookup', [True, [[2, 0x10, 4, b'\0\0\0\0', [[0xFFFF0000, 0x10000]], b'\0\0\0\0'],
+                                       [2, 0x20, 8, b'\0\0\0\0', [[0xFFFFFFFFFFFFF000, 0x1000]], b'']],
+                                [0xFFFEFFFF, 0xFFFF0000, 0xFFFFFFFF, 2 ** 32, 0xFFFFFFFFFFFFEFFF, 0xFFFFFFFFFFFFF000, 2 ** 64 - 1]]),
             # fix efe8bbe: an 8-byte-address set starting at offset 24 (padding counted from the set start)
             ('aranges_entries', [True, [[2, 0, 4, b'\0\0\0\0', [], b''], [2, 0x40, 8, b'\0\0\0\0', [[0x1000, 0x10]], b'']]]),
             ('aranges_lookup', [True, [[2, 0, 4, b'\0\0\0\0', [], b''], [2, 0x40, 8, b'\0\0\0\0', [[0x1000, 0x10]], b'']],
@@ -288,6 +326,11 @@ def gen(ctx):
         sets = _gen_aranges_sets(rng, rng.choice([1, 2, 3]), zero_at=where)
         cases.append(('aranges_entries', [le, sets]))
         cases.append(('aranges_lookup', [le, sets, _addresses_for(sets, rng)]))
+    for i in range(24 * T):          # ranges ending exactly at the top of the address space of their set (or one byte short)
+        le = rng.random() < 0.6
+        sets = _gen_aranges_sets(rng, rng.choice([1, 2, 3, 4]), top=True)
+        cases.append(('aranges_entries', [le, sets]))
+        cases.append(('aranges_lookup', [le, sets, _addresses_for(sets, rng)]))
     for i in range(20 * T):          # every set empty
         le = rng.random() < 0.5
         sets = _gen_aranges_sets(rng, rng.choice([1, 2, 3]))
@@ -321,7 +364,8 @@ def gen(ctx):
         le = rng.random() < 0.7
         sets = _gen_name_sets(rng, rng.choice([0, 1, 1, 2, 3, 5]), dup=rng.random() < 0.5)
         names = [e[1] for s in sets for e in s[3]]
-        queries = sorted(set(names)) + [b'absent', b'', 'nichtäda'.encode('utf-8')]
+        # the other normal forms of every encoded name are queried too: absent unless encoded themselves
+        queries = sorted(set(names) | {v for nm in set(names) for v in _normal_forms(nm)}) + [b'absent', b'', 'nichtäda'.encode('utf-8')]
         cases.append(('names_table', [le, rng.choice(['pubnames', 'pubtypes']), sets, queries]))
     for i in range(6 * T):
         sets = _gen_name_sets(rng, rng.choice([1, 2]))
@@ -568,11 +612,13 @@ def evaluate(ctx, cases):
         elif kind == 'aranges_lookup':
             _, impl = _impl_aranges(a[0], data, a[2], addr_size)
             ntup = sum(len(st[4]) for st in a[1])
-            if _off_grid(a[1]):
+            if _off_grid(a[1]) and impl[:1] == ['err']:      # the table itself was not read (label only)
                 key = K_PAD
             elif ntup == 0:
                 key = K_EMPTY
             ctx.bump('lookup_tables', 'empty' if ntup == 0 else 'nonempty')
+            tops = {(2 ** (8 * st[2]) - t[0] - t[1]) for st in a[1] for t in st[4] if st[2] in (4, 8)} & {0, 1}
+            ctx.bump('range_end', 'exactly 2**(8*address_size)' if 0 in tops else 'one byte short of it' if tops else 'below')
             ctx.bump('addresses', len(a[2]) if len(a[2]) < 40 else '40+')
             if isinstance(spec, list):
                 for s in spec:
@@ -596,6 +642,9 @@ def evaluate(ctx, cases):
             ctx.bump('name_sets', len(a[2]))
             ctx.bump('names', 'dups' if len(set(names)) < len(names) else 'distinct')
             ctx.bump('non_ascii', int(any(max(n, default=0) > 127 for n in names)))
+            nn = [n for n in set(names) if _normal_forms(n)]
+            ctx.bump('normal_forms', 'all names NFC = NFD' if not nn else 'two spellings of one name encoded'
+                     if any(v in names for n in nn for v in _normal_forms(n)) else 'names with another normal form')
             ctx.record(kind, a, impl=impl, spec=spec_full, model=model, in_domain=w['wf'], nontrivial=nent > 0)
         elif kind == 'names_trunc':
             impl = _impl_names(a[0], 'pubnames', data, [], addr_size)
